@@ -1,3 +1,6 @@
+(* C19 — lemmas. The scanner of the repaired parseSnippetValueIntoDirectives is the NGINX lexer of Spec.v fused with
+   the grouping into statements (scan_sim); the directive-context map and its sorting keep exactly the keys that come
+   from snippets; the counting loops equal the declarative counts; parseFlags reduces; D22 witnesses. *)
 From Coq Require Import String Ascii List Bool Arith ZArith Lia Permutation.
 From NGF Require Import C19.Spec C19.Model.
 Import ListNotations.
@@ -281,6 +284,8 @@ Qed.
 (* ------------------------------------------------------------------ collectGraphResourceCount *)
 
 Local Open Scope Z_scope.
+Local Arguments Z.add : simpl never.
+Local Arguments Z.of_nat : simpl never.
 
 Lemma count_if_cons : forall {A} (p : A -> bool) x l,
   count_if p (x :: l) = (if p x then 1 else 0) + count_if p l.
@@ -318,13 +323,14 @@ Proof.
   induction l as [|[kind targets] l IH]; intros [a b c d]; simpl.
   - rewrite !count_if_nil. f_equal; lia.
   - rewrite IH, !count_if_cons. unfold is_csp_attached_to_gateway, is_csp_attached_to_route; simpl.
-    destruct (kind =? "ClientSettingsPolicy")%string eqn:E1.
-    + apply String.eqb_eq in E1. subst kind. simpl.
-      destruct targets as [|t ts]; simpl; [f_equal; lia|].
-      destruct (t =? "Gateway")%string; simpl; f_equal; lia.
-    + destruct (kind =? "ObservabilityPolicy")%string eqn:E2.
-      * apply String.eqb_eq in E2. subst kind. simpl. f_equal; lia.
-      * destruct (kind =? "UpstreamSettingsPolicy")%string eqn:E3; simpl; f_equal; lia.
+    destruct (kind =? "ClientSettingsPolicy")%string eqn:E1,
+             (kind =? "ObservabilityPolicy")%string eqn:E2,
+             (kind =? "UpstreamSettingsPolicy")%string eqn:E3;
+      try (apply String.eqb_eq in E1); try (apply String.eqb_eq in E2); try (apply String.eqb_eq in E3);
+      try (subst kind; discriminate); simpl.
+    all: try (f_equal; lia).
+    destruct targets as [|t ts]; simpl; [f_equal; lia|].
+    destruct (t =? "Gateway")%string; simpl; f_equal; lia.
 Qed.
 
 Lemma resource_counts_spec : forall g, resource_counts g = spec_counts g.
@@ -348,7 +354,7 @@ Definition reduced_words := ["true"; "false"; "default"; "user-defined"].
 Lemma flag_value_reduced : forall f, flag_wf f -> reduced f (flag_value f) = true.
 Proof.
   intros f W. unfold reduced, flag_value. destruct (f_bool f) eqn:B.
-  - rewrite String.eqb_refl. simpl. destruct (W eq_refl) as [-> | ->]; reflexivity.
+  - rewrite String.eqb_refl. simpl. destruct (W B) as [-> | ->]; reflexivity.
   - destruct (f_value f =? f_def f)%string; reflexivity.
 Qed.
 
@@ -425,3 +431,57 @@ Proof.
   exists [Some [("http", "add_header X-Note ""a;secret b"";")]]%string, "secret-http"%string.
   split; vm_compute; auto.
 Qed.
+
+(* ------------------------------------------------------------------ non-vacuity *)
+
+Definition ex_snippet : string :=
+  ("# managed by team-x; ticket=4711" ++ nl ++
+   "add_header X-Note ""a;secret b"";" ++ tab ++ "proxy_set_header" ++ tab ++ "Host" ++ nl ++ "internal.example.com;" ++ nl ++
+   "map $host $backend {" ++ nl ++ "  internal.corp.example 2;" ++ nl ++ "}" ++ nl ++
+   "set $x ${y}z; 'quoted_name' v\;w;")%string.
+
+Example ex_names : directive_names ex_snippet = ["add_header"; "proxy_set_header"; "map"; "set"; "quoted_name"]%string
+                   /\ parse_directives ex_snippet = directive_names ex_snippet.
+Proof. split; vm_compute; reflexivity. Qed.
+
+Definition ex_sfs : list sfilter :=
+  [Some [("http.server", ex_snippet); ("main", "worker_priority 1; worker_rlimit_nofile 50;" ++ nl)]; None;
+   Some [("http.server", "add_header A b;")]]%string.
+
+Example ex_report :
+  collect_directives parse_directives ex_sfs =
+  (["add_header-server"; "worker_priority-main"; "worker_rlimit_nofile-main"; "map-server"; "proxy_set_header-server";
+    "quoted_name-server"; "set-server"]%string, [2; 1; 1; 1; 1; 1; 1]%Z).
+Proof. vm_compute. reflexivity. Qed.
+
+Example ex_report_nonempty : In "map-server"%string (fst (collect_directives parse_directives ex_sfs)).
+Proof. vm_compute. tauto. Qed.
+
+Definition ex_flags : list flagd :=
+  [mkF "gateway-ctlr-name" false "gateway.nginx.org/nginx-gateway-controller" "";
+   mkF "metrics-port" false "9113" "9113"; mkF "metrics-disable" true "false" "false";
+   mkF "usage-report-secret" false "corp-license" ""; mkF "leader-election-disable" true "true" "false"]%string.
+
+Example ex_flags_wf : Forall flag_wf ex_flags /\
+  parse_flags ex_flags =
+  (["gateway-ctlr-name"; "metrics-port"; "metrics-disable"; "usage-report-secret"; "leader-election-disable"],
+   ["user-defined"; "default"; "false"; "user-defined"; "true"])%string.
+Proof.
+  split; [|vm_compute; reflexivity].
+  repeat constructor; unfold flag_wf; simpl; intros; try discriminate; auto.
+Qed.
+
+Definition ex_graph : gdesc :=
+  mkG true 2 true 1 ["http"; "grpc"; "http"; "tls"]%string 3 2 4 [(false, 3); (true, 5); (false, 1)] 1
+      [("ClientSettingsPolicy", ["Gateway"]); ("ClientSettingsPolicy", ["HTTPRoute"]); ("ClientSettingsPolicy", []);
+       ("ObservabilityPolicy", ["HTTPRoute"; "GRPCRoute"]); ("UpstreamSettingsPolicy", ["Service"]); ("Other", [])]%string
+      true ex_sfs.
+
+Example ex_counts :
+  resource_counts ex_graph =
+  [("GatewayClassCount", 3); ("GatewayCount", 2); ("HTTPRouteCount", 2); ("GRPCRouteCount", 1); ("TLSRouteCount", 3);
+   ("SecretCount", 2); ("ServiceCount", 4); ("EndpointCount", 4); ("BackendTLSPolicyCount", 1);
+   ("GatewayAttachedClientSettingsPolicyCount", 1); ("RouteAttachedClientSettingsPolicyCount", 1);
+   ("ObservabilityPolicyCount", 1); ("UpstreamSettingsPolicyCount", 1); ("NginxProxyCount", 1);
+   ("SnippetsFilterCount", 3)]%string%Z.
+Proof. vm_compute. reflexivity. Qed.
